@@ -25,6 +25,8 @@ pub fn expr(e: &Value) -> String {
         "or" => format!("({} OR {})", expr(&e["l"]), expr(&e["r"])),
         "not" => format!("(NOT {})", expr(&e["l"])),
         "neg" => format!("(- {})", expr(&e["l"])),
+        // VALUES(col) inside ON DUPLICATE KEY UPDATE: the value the statement wanted to insert
+        "dkv" => format!("VALUES({})", s(e, "c")),
         "isnull" => format!("({} IS {}NULL)", expr(&e["l"]), if b(e, "neg") { "NOT " } else { "" }),
         "between" => format!(
             "({} {}BETWEEN {} AND {})",
